@@ -52,7 +52,7 @@ def wbyte(ordinal, lane): return 0x80 | ((ordinal & 0x1f) << 2) | (lane & 3)
 
 class AvalonHarness(Harness):
     def __init__(self, aw=32, pw=32, mbl=4, base_address=0, acc=(), dc="same", gaps=True, pipelined=False, raw="drained", wmin=3, rmin=6, qmax=3,
-                 nwords=8, adr_width=8, port_aw=8, burst_increment=1):
+                 nwords=8, adr_width=8, port_aw=8, burst_increment=1, decoupled=False):
         from litedram.common import LiteDRAMNativePort
         from litedram.frontend.avalon import LiteDRAMAvalonMM2Native
         from litex.soc.interconnect.avalon import AvalonMMInterface
@@ -79,7 +79,7 @@ class AvalonHarness(Harness):
         self.dc, self.gaps, self.pipelined, self.raw = dc, bool(gaps), bool(pipelined), raw
         self.nwords = nwords; self.nbytes = nwords * ab
         assert self.nbytes % pb == 0
-        self.resp = Responder(c, [port], wmin=wmin, rmin=rmin, qmax=qmax, mem_init=self.mem_init)
+        self.resp = Responder(c, [port], wmin=wmin, rmin=rmin, qmax=qmax, mem_init=self.mem_init, decoupled=decoupled)
         ii = c.ii
         self.i_addr = ii.get(avl.address); self.i_wd = ii.get(avl.writedata); self.i_be = ii.get(avl.byteenable)
         self.i_rd = ii[avl.read]; self.i_wr = ii[avl.write]; self.i_bc = ii.get(avl.burstcount)
@@ -166,7 +166,7 @@ class AvalonHarness(Harness):
         return [(g, r) for g in go for r in rm]
 
     def describe(self, ch):
-        g, (rb, serve) = ch
+        g, rch = ch; rb, serve = rch[0], rch[1]
         return "%s | cmd.ready=%d serve=%s" % ("request" if g else "idle   ", rb, list(serve))
 
     def last_driven(self, k, b):
@@ -191,14 +191,14 @@ class AvalonHarness(Harness):
         """A recorded choice list replayed on a *different* tree (after a repair, under a mutation) can ask for something that is
         not in the menu of the state reached there; project it onto the menu so that the master and the memory stay legal.
         On the tree the trace was found on this is the identity."""
-        g, (rb, serve) = ch
+        g, rch = ch; rb, serve = rch[0], rch[1]
         opts = self.may_present(E)
         if g not in opts: g = opts[0]
         cq = E[6][0]
-        el = self.resp.eligible(cq)
+        el = self.resp.eligible(cq, E[6][2] if self.resp.decoupled else None)
         serve = tuple(i for i in serve if i in el)[:1]
         if len(cq) >= self.resp.qmax: rb = 0
-        return g, (rb, serve)
+        return g, ((rb, serve) + tuple(rch[2:]))
 
     def drive(self, S, E, ch):
         k, b, hold, rd, rbeat, hgap, rs = E
@@ -290,8 +290,7 @@ class AvalonHarness(Harness):
                             ", ".join("byte 0x%x = %02x (expected %02x)" % t for t in bad[:6]), kind="final_memory", only_unwritten_bytes=stale,
                             bridge_fsm=self.fsm_names.get(self.r_fsm(S, I, O), "?") if self.r_fsm is not None else None)
         ev = 0
-        el = self.resp.eligible(rs[0])
-        coop = ch == (self.may_present(E)[0], (1 if len(rs[0]) < self.resp.qmax else 0, (el[0],) if el else ()))
+        coop = ch == (self.may_present(E)[0], self.resp.default_choice(rs))
         if coop and (not done or rs[0]): ev |= EV_OUT
         if prog: ev |= EV_PROG
         return E2, ev
@@ -399,6 +398,7 @@ def configs(tier):
         if kw.get("gaps") is False: name += "-nogap"
         if kw.get("pipelined"): name += "-pipe"
         if kw.get("raw") == "ordered": name += "-ordered"
+        if kw.get("decoupled"): name += "-streamport"
         d = dict(aw=aw, pw=pw, mbl=mbl, acc=scen(s, aw // 8)); d.update(kw)
         cs.append((name, d, ms))
     R11, R14, R12, R21 = (32, 32), (8, 32), (16, 32), (32, 16)
@@ -410,6 +410,7 @@ def configs(tier):
         add(R11, "wb4-rb4", mbl=4, dc="zero")
         add(R11, "wb2-r1-r1", mbl=2, base_address=0x40)
         add(R11, "r1-w1-r1", mbl=2)
+        add(R11, "wb3-rb3", mbl=3, dc="zero", decoupled=True); add(R14, "wb2-rb2", mbl=2, decoupled=True); add(R21, "wb2-rb2", mbl=2, decoupled=True)
         # the same without idle cycles inside write bursts (everything else free)
         add(R11, "wb3-rb3", mbl=3, gaps=False); add(R11, "wb4-rb4", mbl=4, gaps=False); add(R11, "wb2-wb2-rb3", mbl=3, gaps=False)
         add(R11, "w1-w1-rb2", mbl=2, gaps=False); add(R11, "rb2-wb2-rb2", mbl=2, gaps=False, base_address=0x40)
